@@ -292,6 +292,12 @@ def let_tower(n, w):
     return e + f'v{n} == 0'
 for n, w in (((8, 2), (14, 2), (20, 2), (24, 2), (28, 2), (8, 8), (8, 24), (12, 16)) if thorough else ((14, 2), (26, 2), (8, 24))):
     HEAVY.append((f'let tower: {n} levels x {w} uses', let_tower(n, w)))
+# words of the language in other letter cases (the grammar takes some of them whatever the case)
+for w in ('and', 'or', 'xor'):
+    for sp in (w.upper(), w.capitalize(), w[0] + w[1:].upper()):
+        HEAVY.append((f'keyword case: {sp}', f'true {sp} false'))
+for text in ('IF true THEN true ELSE false', 'If true Then true Else false', 'LET a = true IN a', 'TRUE', 'False', 'true AND NOT false', 'request.listener AND true'):
+    HEAVY.append((f'keyword case: {text.split()[0]}', text))
 LIMIT = 20.0
 
 def rules_case(c):
